@@ -52,6 +52,7 @@ func (c *Connection) handleCallReq(frame *Frame) bool {
 	default:
 		panic(fmt.Errorf("unknown connection state for call req: %v", state))
 	}
+	verifPoint("inbound.afterStateCheck", frame.Header.ID)
 
 	callReq := new(callReq)
 	callReq.id = frame.Header.ID
@@ -79,6 +80,7 @@ func (c *Connection) handleCallReq(frame *Frame) bool {
 		return true
 	}
 
+	verifPoint("inbound.afterNewExchange", frame.Header.ID)
 	// Close may have been called between the time we checked the state and us creating the exchange.
 	if c.readState() != connectionActive {
 		mex.shutdown()
